@@ -28,6 +28,33 @@ Theorem C16_uncommit_commit_id :
 Proof. exact uncommit_commit_id. Qed.
 Print Assumptions C16_uncommit_commit_id.
 
+(* the same in a bound branch (heavyweight checkout) with commit(local=True) and
+   uncommit(local=True): the master [mb] may be at the old tip or anywhere behind
+   it (earlier local commits); branch, tree AND master are exactly as before *)
+Theorem C16_local_uncommit_commit_id :
+  forall g ps tipb n tags files keep mb,
+  wf_dag g = true -> fresh_next g = true -> valid_parents g ps = true ->
+  tipb = hd_error ps ->
+  match ps with p :: _ => p < length g | [] => True end ->
+  filter_parents g ps = ps ->
+  forallb (fun nr => negb (snd nr =? length g)) tags = true ->
+  let b := mkS tipb n tags in
+  let t := mkT ps files in
+  uncommit (commit_graph g t) (commit_branch g b) (Some (commit_tree g t)) (Some mb) n keep true
+  = Ok (b, Some t, Some mb).
+Proof. exact local_uncommit_commit_id. Qed.
+Print Assumptions C16_local_uncommit_commit_id.
+
+(* mixed: a local commit followed by a NON-local uncommit is refused (the branch is
+   ahead of its master), leaving everything as it is *)
+Theorem C16_local_commit_nonlocal_uncommit_refused :
+  forall g b t mb k keep,
+  tip mb <> Some (length g) ->
+  uncommit (commit_graph g t) (commit_branch g b) (Some (commit_tree g t)) (Some mb) k keep false
+  = Err BoundBranchOutOfDate.
+Proof. exact local_commit_nonlocal_uncommit_refused. Qed.
+Print Assumptions C16_local_commit_nonlocal_uncommit_refused.
+
 (* several revisions at once (any depth d = revno - k): the new tip is the d-th
    left-hand ancestor (null: when the history is exhausted) and the new parent
    list is: new tip, then the merged parents of the removed mainline revisions
